@@ -32,16 +32,28 @@ type Truth struct {
 	SMSLog []SMSMsg
 	// Flags are scenario-specific sticky facts ("registered:U3", ...).
 	Flags map[string]string
+	// Times / Ints hold reference-model state (canonicalised as offsets / literally).
+	Times map[string]time.Time
+	Ints  map[string]int
 }
 
 // NewTruth returns an empty memory.
-func NewTruth() *Truth { return &Truth{Flags: map[string]string{}} }
+func NewTruth() *Truth {
+	return &Truth{Flags: map[string]string{}, Times: map[string]time.Time{}, Ints: map[string]int{}}
+}
 
 // Clone deep-copies.
 func (t *Truth) Clone() *Truth {
 	c := &Truth{Secrets: append([]Secret(nil), t.Secrets...), SMSLog: append([]SMSMsg(nil), t.SMSLog...), Flags: map[string]string{}}
 	for k, v := range t.Flags {
 		c.Flags[k] = v
+	}
+	c.Times, c.Ints = map[string]time.Time{}, map[string]int{}
+	for k, v := range t.Times {
+		c.Times[k] = v
+	}
+	for k, v := range t.Ints {
+		c.Ints[k] = v
 	}
 	return c
 }
